@@ -251,6 +251,13 @@ def check(ctx):
                         fld(r, 'finite_calls_'), finc)
         ctx.guard('R5', fsite(f), r5)
     ctx.count('accumulator::result definitions', nres, 2)
+    _shared(ctx)
+
+
+def _shared(ctx):
+    from . import C07
+    from .common import Proxy, share
+    share(ctx, 'C07', 'R6/C07.', ['R1.stored_bin'])
 
 
 def algebra_equal(a, b):
